@@ -79,6 +79,9 @@ class Ctx:
 def new_run(prop: str, tier: str, level: str, model: Model, explanation: str) -> tuple[Run, Ctx]:
     run = Run(prop, tier, level, model)
     run.explanation = explanation
+    from .. import report as _report
+
+    _report.CURRENT = run
     return run, Ctx(model, run)
 
 
